@@ -10,7 +10,7 @@ from .common import (Case, HELD, VIOLATED, INCONCLUSIVE, bad_outcome, diag_list,
 ID = "C10"
 LEVEL = "exploration"
 BUILDS = ["rel"]
-BUDGET_S = {"quick": 120, "thorough": 1500}
+BUDGET_S = {"quick": 600, "thorough": 1500}
 RULE = ("One file per case holding one violating block for each of the seven validators, all written in one comment "
         "layout: line comment (#, //, --), Rust doc comment, one-line block comment followed by content on the same "
         "line, start tag on line k of an n-line block comment that continues m lines after the tag (plain or "
